@@ -251,12 +251,12 @@ func New(c *config.Config) (*Olric, error) {
 	return db, nil
 }
 
-func (db *Olric) preconditionFunc(conn redcon.Conn, _ redcon.Command) bool {
+func (db *Olric) preconditionFunc(conn redcon.Conn, cmd redcon.Command) bool {
 	// Reply with the routing table's own error values. Only those are registered with a
 	// protocol prefix (CLUSTERQUORUM); the public alias returned by isOperable would be
 	// written as a generic ERR and a client could not map it back to ErrClusterQuorum.
 	err := db.rt.CheckMemberCountQuorum()
-	if err == nil {
+	if err == nil && !isLengthOfPart(cmd) {
 		err = db.rt.CheckBootstrap()
 	}
 	if err != nil {
@@ -264,6 +264,16 @@ func (db *Olric) preconditionFunc(conn redcon.Conn, _ redcon.Command) bool {
 		return false
 	}
 	return true
+}
+
+// isLengthOfPart reports whether cmd is the coordinator's LengthOfPart query. The
+// coordinator sends it to every listed partition owner while it computes the routing
+// table it is about to push, holding the routing lock. A member which has not been
+// bootstrapped yet has to answer it without waiting for the bootstrap: only that push
+// can bootstrap it, so waiting here blocks the coordinator for BootstrapTimeout per
+// partition. The handler only reads the partition length and waits for the join itself.
+func isLengthOfPart(cmd redcon.Command) bool {
+	return len(cmd.Args) > 0 && strings.EqualFold(string(cmd.Args[0]), protocol.Internal.LengthOfPart)
 }
 
 func (db *Olric) registerCommandHandlers() {
